@@ -317,3 +317,21 @@ func Checks(q, th int) {
 	_, ns := Shard()
 	flag.Set("rapid.checks", strconv.Itoa(max(1, n/ns)))
 }
+
+// AddFailure records a violation directly (enumerating checks that must not stop at the first failing cell).
+func AddFailure(f *Failure) { mu.Lock(); failures = append(failures, f); mu.Unlock() }
+
+// KnownHit counts a failure whose signature is a listed known finding.
+func KnownHit(f *Failure) {
+	mu.Lock()
+	defer mu.Unlock()
+	for _, k := range known {
+		if k.Property == def.ID && k.Status == "known" && k.Signature == f.Signature {
+			knownHits[k.ID]++
+			if _, ok := knownEx[k.ID]; !ok {
+				knownEx[k.ID] = f.Detail
+			}
+			counters["excluded_known:"+k.ID]++
+		}
+	}
+}
